@@ -7,11 +7,13 @@ from . import common as C
 PID = 'C12'
 SHARD_SIZE = 40
 RULE = ('every anchored solver loop is run on small integer/dyadic problems (rn, constant-weighted rn and '
-        'uniform_discr spaces; dense integer matrices, PartialDerivative and scaled identities given to the model as '
-        'their measured matrix and adjoint matrix; functionals zero / indicator-zero / c*L1 / c*L2^2 / box and their '
-        'translates; dyadic steps incl. inadmissible ones; iteration budgets 0..8) and the callback iterates are '
-        'compared with the Coq model run at Q on the same data; a case is non-trivial when at least one iterate '
-        'differs from the start vector; distinct by (solver, operator matrix, functionals, steps, start, budget)')
+        'uniform_discr spaces; dense integer matrices incl. ill-conditioned SPD ones, PartialDerivative and scaled identities, '
+        'given to the model as their measured matrix and adjoint matrix; functionals zero / indicator-zero / c*L1 / c*L2^2 / box '
+        'and their translates as f, g, l; dyadic steps incl. inadmissible ones; constant, callable and default relaxation; '
+        'budgets 0..8; 0..3 operators for the splittings; accelerated pdhg; line searches called once and twice with and without '
+        'dir_derivative, ascent directions, exhausted budgets) and the callback iterates / returned values / raised errors are '
+        'compared with the Coq model run at Q on the same data; a case is non-trivial when at least one iterate differs from '
+        'the start vector; distinct by (solver, operator matrix, functionals, steps, start, budget, options)')
 ASSUMPTIONS = [
     'exact arithmetic: theorems speak about the unrounded iterates; the implementation is compared with them up to 1e-8',
     'proximal operators are taken as maps satisfying the proximal inequality (property C07); gradients as given maps',
@@ -1303,6 +1305,23 @@ def probes(rng, tier):
     return out
 
 
-LEVEL_TEXT = ''
-LEVEL_NOTE = ''
-TECHNIQUE = ''
+LEVEL_TEXT = ('Proof (partial: CG n-step termination and convergence of the non-smooth solvers are validated, not proved). '
+              'The loop bodies of landweber, kaczmarz, conjugate_gradient, conjugate_gradient_normal, power_method_opnorm, '
+              'pdhg, douglas_rachford_pd, forward_backward_pd, (accelerated_)proximal_gradient, admm_linearized, '
+              'BacktrackingLineSearch and steepest_descent are modelled once, generically, in Coq; the same terms are executed '
+              'at Q against the implementation (every branch of the loops, 258/1065 cases) and proved at R over ALL '
+              'inner-product spaces, operators, starts and iteration budgets: Landweber/CGN residual and Kaczmarz distance '
+              'never increase in the admissible step windows, the CG energy error decreases by |r|^4/<p,Ap> per step, '
+              'every power-method estimate is <= the norm, backtracking/steepest descent strictly decrease any objective, '
+              'proximal gradient decreases f+g for gamma <= 2/L, and for all six non-smooth solvers a point satisfying the '
+              'sub-gradient optimality conditions is a fixed point (PDHG and proximal gradient: if and only if). The theorems '
+              'are transported to the list model itself (R^n, weighted dot products, matrices; plain transpose proved adjoint). '
+              'forward_backward_pd as coded is PROVED not to converge on an admissible 1-d problem (finding, with fix).')
+LEVEL_NOTE = ('Modelled not verified: proximal maps enter the theorems through the proximal inequality (C07), operators through '
+              'linearity + exact adjoint + norm bound (C05); the separable list proximals, objectives and measured operator '
+              'matrices are tied by the correspondence only. Exact arithmetic: rounding is outside every theorem (finding '
+              'cgn-past-convergence-blowup is a floating-point failure of a clause that holds exactly). Not modelled: random-order '
+              'kaczmarz, projections, Newton/BFGS/nonlinear CG. Axioms: classical reals + functional extensionality as printed.')
+TECHNIQUE = ('Coq proofs by induction on the iteration count with loop invariants over an abstract inner-product space '
+             '(Record IPS/LinOp, sub-gradient/proximal calculus), instantiated to fixed-length lists; the identical generic '
+             'solver terms are run at Q inside Coq against the implementation (differential correspondence); KKT-residual probes')
